@@ -804,7 +804,9 @@ func (t *State) checkRelyOnMarkedTxid(reftxid []byte, blockid []byte) (bool, boo
 				return true, isRely, nil
 			}
 		}
-		return false, isRely, nil
+		// the refusal must carry an error: VerifyTx and verifyDAGTxs hand this pair on as it is and
+		// their callers (Chain.SubmitTx, the block verification) look at the error only
+		return false, isRely, ErrRelyOnMarkedTx
 	}
 	return true, isRely, nil
 }
